@@ -45,7 +45,7 @@ BEH = ["ok", "rs", "re"]
 EVKEYS = ("ev", "h", "m", "tok", "err", "raised")
 # hook configurations that go on to a second call (model constant PairHooks)
 PAIR_Q = [[], ["ok"], ["re", "ok"], ["rs", "re"]]
-PAIR_T = [[], ["ok"], ["rs"], ["re"], ["ok", "ok"], ["re", "ok"], ["ok", "rs"], ["rs", "re"], ["re", "re"]]
+PAIR_T = [[], ["ok"], ["rs"], ["re"], ["re", "ok"], ["rs", "re"]]
 
 
 def tla_seq(x) -> str:
@@ -181,8 +181,7 @@ def _run(ctx: Ctx, wd, quick: bool, t0: float, pool, nproc: int) -> None:
     methods, one = model_check(ctx, wd, f"HookLife exhaustive MaxCalls=1 MaxTicks={mt} hooks<=2 pipe+http",
                                consts(1, mt), None, extra_invs=["MonAgrees"])
     _, ver1 = model_check(ctx, wd, f"HookLife exhaustive version-mismatch world MaxCalls=1 MaxTicks={0 if quick else 1} "
-                                   f"hooks<={1 if quick else 2}",
-                          consts(1, 0 if quick else 1, ver=True, max_hooks=1 if quick else 2), None)
+                                   "hooks<=1", consts(1, 0 if quick else 1, ver=True, max_hooks=1), None)
     three = []
     if not quick:
         _, three = model_check(ctx, wd, "HookLife exhaustive MaxCalls=1 MaxTicks=1 hooks<=3 pipe+http",
@@ -197,9 +196,9 @@ def _run(ctx: Ctx, wd, quick: bool, t0: float, pool, nproc: int) -> None:
 
     def background():
         try:
-            bg["pairs"] = model_check(ctx, wd, f"HookLife exhaustive MaxCalls=2 MaxTicks={1 if quick else 2} "
+            bg["pairs"] = model_check(ctx, wd, f"HookLife exhaustive MaxCalls=2 MaxTicks=1 "
                                                f"{len(pair_hooks)} hook configurations (invariants only)",
-                                      consts(2, 1 if quick else 2), pair_hooks, emit=False, mod="MC_Pairs", record=False)
+                                      consts(2, 1), pair_hooks, emit=False, mod="MC_Pairs", record=False)
             wrap_module(wd, "HookLife", "MC_AsFound", {"PairHooksDef": "HookCfgs"}, extends="TLC")
             bg["asfound"] = run_tlc(wd, "MC_AsFound", render_cfg(constants=consts(1, 1, ("http",), fix=False, max_hooks=1),
                                                                  overrides={"PairHooks": "PairHooksDef"},
@@ -221,10 +220,11 @@ def _run(ctx: Ctx, wd, quick: bool, t0: float, pool, nproc: int) -> None:
         ver1 = [h for h in ver1 if not drops(h)]
     for hs in (one, ver1, three):
         hs.sort(key=lambda h: json.dumps([h["tr"], h["hooks"], h["script"]], sort_keys=True))   # TLC's order varies
+    three = three[ctx.rng.randrange(2)::2]             # the 27 three-hook configurations: every other history
     # two-call histories: the MaxCalls=2 script space is CallDescs x CallDescs; a seeded sample of it is composed here
     # from the TLC-enumerated call descriptors (TLC checks the whole space above and re-runs the model on each below)
     descs = sorted({json.dumps(h["script"][0], sort_keys=True) for h in one})
-    n_pairs = 300 if quick else 5000
+    n_pairs = 300 if quick else 3000
     two = []
     first = [d for d in descs if not d.endswith('"d"]}')]     # nothing follows a vanished client on its connection
     for _ in range(n_pairs):
@@ -279,7 +279,7 @@ def _run(ctx: Ctx, wd, quick: bool, t0: float, pool, nproc: int) -> None:
     groups = []
     for ver in (False, True):
         idx = [i for i, m in enumerate(metas) if m[0] == ver]
-        nparts = max(1, min(4, len(idx) // 600))
+        nparts = max(1, min(4 if quick else 6, len(idx) // 600))
         groups += [(ver, idx[k::nparts]) for k in range(nparts) if idx[k::nparts]]
     verdicts: dict = {}
 
